@@ -332,6 +332,7 @@ func c11(r *lp.Run) {
 	c11Shapes(r)
 	c11DocSplit(r, r.Rng.Fork(1105))
 	c11Positions(r)
+	c11Listing(r)
 	// past failures and witnesses of known classes
 	for _, o := range corpusObjs("C11") {
 		if d, ok := o["document"].(string); ok {
@@ -396,6 +397,11 @@ func c11JudgeOne(r *lp.Run, data, twin []byte, what string, o genOutcome) {
 		}
 		r.Fail(lp.PropFail{Property: "C11", What: "the generator process dies (unrecoverable runtime error, e.g. stack overflow)", Input: in, Observed: trunc200(o.msg), Expected: "output or an error"})
 	case "timeout":
+		if strings.HasPrefix(what, "K40 ") {
+			// the exact witness document of the corpus only; the 10-level document of the same shape must finish
+			r.Known(lp.PropFail{Property: "C11", Class: "K40", What: "allOf merging takes time exponential in the depth of shared allOf members", Input: in, Observed: "timeout", Expected: "output or an error"})
+			return
+		}
 		r.Fail(lp.PropFail{Property: "C11", What: "parsing/generation does not finish within 30 s", Input: in, Observed: "timeout", Expected: "output or an error"})
 	case "unparsable":
 		if cls := c02Known(o.msg, twin); cls != "" {
